@@ -97,6 +97,8 @@ impl ConfigBuilder {
     /// portions of the configuration that are incorrect.
     pub fn build_lossy(self, mut root: Root) -> (Config, ConfigErrors) {
         let mut errors: Vec<ConfigError> = vec![];
+        #[cfg(log4rs_verif)]
+        use crate::verif_hooks::VecSet as HashSet;
 
         let ConfigBuilder { appenders, loggers } = self;
 
